@@ -92,7 +92,8 @@ Definition h_close (io : N) (nm : fname) (f : lfile) : lfile * list event :=
     (mkLf (lf_recs f) (lf_size f) (lf_size f) 0 (lf_torn f) (lf_size f),
      [EvSync nm; EvTrunc nm (lf_size f); EvClose nm])
   else
-    (mkLf (lf_recs f) (lf_size f) (lf_phys f) 0 (lf_torn f) (lf_size f), [EvSync nm; EvClose nm]).
+    (* standard I/O: the physical size is the logical size at every moment *)
+    (mkLf (lf_recs f) (lf_size f) (lf_size f) 0 (lf_torn f) (lf_size f), [EvSync nm; EvClose nm]).
 
 (* writer position of a file *)
 Definition lf_bid (f : lfile) : N := lf_size f / blockSize.
